@@ -29,7 +29,7 @@ for pid in ids:
     })
 
 hooks = subprocess.run(['git', '-C', '/repo', 'log', '--format=%h %s'], capture_output=True, text=True).stdout.strip().split('\n')
-hook_commits = [l.split()[0] for l in hooks if l.split(' ', 1)[1].startswith('verif:')]
+hook_commits = [l.split()[0] for l in hooks if l.split(' ', 1)[1].startswith('verif')]
 m = {
     "version": 1,
     "setup_cmd": "cd /verif/govc && GOFLAGS=-mod=mod GOPROXY=off GOSUMDB=off GOTOOLCHAIN=local go build -o ../bin/govc .",
